@@ -230,6 +230,39 @@ def m3(ctx):
         pass
     rec = [c for c in b.all_calls() if c.callee and c.callee.name == "ematch_impl"]
     ctx.check(len(rec) >= 1, "recursion", "each child is matched recursively against its child pattern", "ematch_node no longer recurses into the children", where_of(b))
+    if len(zl) == 1:
+        every_child_matched(ctx, crate, b, zl[0])
+
+
+def every_child_matched(ctx, crate, b, zl):
+    """every iteration of the child loop runs the recursive matcher over the accumulated states: no path from the loop's Some edge
+    back to its head avoids the match step (the inner loop / adaptor call whose body calls ematch_impl, or the call itself).  A
+    `continue` in front of it ("this child is ground, compare class ids instead") accepts a candidate whose child was never
+    compared with its pattern: slot arguments of that child are unconstrained, so reported matches are not instances."""
+    rec_name = "ematch_impl"
+
+    def calls_rec(body_):
+        return any(c.callee and c.callee.name == rec_name for sub in body_.all_bodies() for c in sub.calls)
+    steps = set()
+    for c in b.calls:
+        if b.blocks[c.bb]["cleanup"] or not c.callee:
+            continue
+        if c.callee.name == rec_name:
+            steps.add(c.bb)
+        else:
+            for a in c.args:
+                for x in role_walk(b.role_of_operand(a)):
+                    if isinstance(x, tuple) and x[0] == "agg" and isinstance(x[1], str) and x[1] in crate.bodies and calls_rec(crate.bodies[x[1]]):
+                        steps.add(c.bb)
+    for l in C.iterator_loops(b):
+        if l[0] != zl[0] and l[0] in C.loop_body(b, zl) and any(c.bb in C.loop_body(b, l) and c.callee and c.callee.name == rec_name for c in b.calls):
+            steps.add(l[0])
+    steps = {x for x in steps if x in C.loop_body(b, zl) or x == zl[0]} - {zl[0]}
+    ctx.floor("match steps inside the child loop of the node matcher", len(steps), 1)
+    ok = bool(steps) and b.must_pass(zl[3], [zl[0]], steps)
+    ctx.check(ok, "every-child-matched", "every iteration of the child loop passes the recursive match of that child against its pattern",
+              "the child loop of the node matcher can go on to the next child without matching this one against its child pattern (a `continue` / fast path in front of the recursive ematch_impl): the child's class may be compared, but its slot arguments are not — a candidate whose child uses different slots than the pattern demands is accepted, and the reported substitution is not an instance in the e-graph",
+              where_of(b, zl[0]))
 
 
 @rule("M3b", doc="weak variants: every returned list is derived from the full variant enumeration; dedupe only on equal weak shape")
